@@ -146,6 +146,8 @@ def gen_universe(rng: random.Random, **opts: Any) -> dict:
                 n = rng.randint(1, 3)
                 examples.append({"kind": hdr["on"], "where": "param", "in": "header", "name": hdr["name"],
                                  "form": "example" if n == 1 else "examples", "values": ["abc", "abd", "abe"][:n]})
+        if opts.get("example_variants"):
+            _example_variants(name, examples, dict(props))
         path_level = None
         if rng.random() < opts.get("p_path_level", 0.0):
             path_level = {"on": rng.choice(["coll", "item"]), "override": rng.random() < 0.6, "extra": rng.random() < 0.7}
@@ -181,7 +183,21 @@ def gen_universe(rng: random.Random, **opts: Any) -> dict:
             # cross-collection link: POST /tasks -> DELETE /task/{id} (a different resource with the same id value)
             a["links"].append({"from": "create", "to": "delete", "to_collection": b["name"], "key": "201", "by": "operationId",
                                "params": {"id": "$response.body#/id"}})
+    # specification version: derived from the drawn content (no extra rng draw, so the other dimensions of a seed stay put)
+    spec = opts.get("spec") or ["3.0", "3.0", "2.0", "3.1", "3.0", "2.0"][content_hash(json.dumps(collections, sort_keys=True)) % 6]
+    import os
+
+    if os.environ.get("SIM_FORCE_SPEC"):  # diagnostic switch only (never set by a check)
+        spec = os.environ["SIM_FORCE_SPEC"]
+    sec = opts.get("security")
+    if spec == "2.0" and (
+        any(c["cookie"] or c["upper_methods"] or any(l["key"].endswith("XX") for l in c["links"]) for c in collections)
+        or (sec and sec.get("scheme") == "bearer")
+    ):
+        # Swagger 2.0 has no cookie parameters, bearer scheme or status-code ranges; upper-case method keys are a 3.x quirk here
+        spec = "3.0"
     return {
+        "spec": spec,
         "collections": collections,
         "layout": opts.get("layout", "single"),
         "format": opts.get("format", "json"),
@@ -189,6 +205,44 @@ def gen_universe(rng: random.Random, **opts: Any) -> dict:
         "ref_paths": [rng.random() < 0.5 for _ in range(2 * len(collections))] if opts.get("layout") == "multi" else None,
         "security": opts.get("security"),
     }
+
+
+def _example_variants(coll_name: str, examples: list[dict], props: dict) -> None:
+    """Harder placements, chosen by content hash (no rng draw): JSON-distinct but Python-equal twins (1 vs 1.0), examples
+    behind $ref (#/components/examples), an externalValue, examples on anyOf/oneOf branches of a body property."""
+    for ex in examples:
+        h = content_hash(coll_name, json.dumps(ex, sort_keys=True, default=str))
+        first = ex["values"][0]
+        if ex["where"] == "param" and ex["form"] == "examples":
+            if isinstance(first, int) and not isinstance(first, bool) and h % 3 == 0:
+                ex["values"].append(float(first))
+                ex["twin"] = True
+            if (h // 3) % 4 == 1:
+                ex["ref"] = True
+        elif ex["where"] == "media" and ex["form"] == "examples":
+            ints = [k for k, v in first.items() if isinstance(v, int) and not isinstance(v, bool)]
+            if ints and h % 3 == 0:
+                twin = dict(first)
+                twin[ints[0]] = float(first[ints[0]])
+                ex["values"].append(twin)
+                ex["twin"] = True
+            elif h % 3 == 1:
+                ex["external"] = len(ex["values"]) - 1
+            if (h // 3) % 4 == 1 and "external" not in ex:
+                ex["ref"] = True
+        elif ex["where"] == "property" and h % 2 == 0:
+            schema = props[ex["name"]]
+            t = schema.get("type")
+            if t == "integer":
+                lo, hi = schema.get("minimum", 0), schema.get("maximum", 50)
+                second = hi if first != hi else lo
+            elif t == "boolean":
+                second = not first
+            else:
+                second = ("zz" if first != "zz" else "yy")[: schema.get("maxLength", 8)]
+            if second != first:
+                ex["values"].append(second)
+                ex["branch"] = "oneOf" if h % 4 == 0 else "anyOf"
 
 
 def gen_link_repertoire(rng, kinds, props, required, qparams, id_type, opts) -> list[dict]:
@@ -280,6 +334,7 @@ class Universe:
         self.desc = desc
         self.ops: dict[str, RefOp] = {}
         self.doc: dict = {}
+        self.external_files: dict[str, bytes] = {}
         self._build()
         self._compile_routes()
 
@@ -413,6 +468,11 @@ class Universe:
                         pdef["schema"]["example"] = ex["values"][0]
                     else:
                         pdef["examples"] = {f"e{j}": {"value": val} for j, val in enumerate(ex["values"])}
+                        if ex.get("ref") and desc.get("spec", "3.0") != "2.0":
+                            for j, val in enumerate(ex["values"]):
+                                cname = f"{name}_{kind}_{ex['name'].replace('-', '')}_e{j}"
+                                components.setdefault("examples", {})[cname] = {"value": val}
+                                pdef["examples"][f"e{j}"] = {"$ref": f"#/components/examples/{cname}"}
                     for val in ex["values"]:
                         refop.examples.append({"location": ex["in"], "name": ex["name"], "value": val})
                 elif ex["where"] == "media":
@@ -421,15 +481,40 @@ class Universe:
                         media["example"] = ex["values"][0]
                     else:
                         media["examples"] = {f"b{j}": {"value": val} for j, val in enumerate(ex["values"])}
-                    for val in ex["values"]:
-                        refop.examples.append({"location": "body", "name": None, "value": val})
+                        if ex.get("ref") and desc.get("spec", "3.0") != "2.0":
+                            for j, val in enumerate(ex["values"]):
+                                cname = f"{name}_{kind}_body_b{j}"
+                                components.setdefault("examples", {})[cname] = {"value": val}
+                                media["examples"][f"b{j}"] = {"$ref": f"#/components/examples/{cname}"}
+                    ext = ex.get("external")
+                    for j, val in enumerate(ex["values"]):
+                        if ext == j and ex["form"] != "example":
+                            # the example lives in another document: fetched over the (simulated) network when examples are collected
+                            fname = f"/ext/{name}_{kind}_b{j}.json"
+                            raw = json.dumps(val, sort_keys=True).encode()
+                            self.external_files[fname] = raw
+                            media["examples"][f"b{j}"] = {"externalValue": BASE + fname}
+                            refop.examples.append({"location": "body_raw", "name": None, "value": raw.decode(), "external": BASE + fname})
+                        else:
+                            refop.examples.append({"location": "body", "name": None, "value": val})
                 elif ex["where"] == "property":
                     # inline copy of the body schema so that the example belongs to this operation only
                     media = opdef["requestBody"]["content"]["application/json"]
                     inline = copy.deepcopy(new_schema)
-                    inline["properties"][ex["name"]]["example"] = ex["values"][0]
+                    if ex.get("branch") and len(ex["values"]) > 1:
+                        # one example per anyOf/oneOf branch; the union of the branches is the original property schema
+                        orig = inline["properties"][ex["name"]]
+                        inline["properties"][ex["name"]] = {ex["branch"]: [{**copy.deepcopy(orig), "example": val} for val in ex["values"]]}
+                        if ex["branch"] == "oneOf":
+                            # make the branches disjoint so that oneOf keeps the original meaning
+                            b0, b1 = inline["properties"][ex["name"]]["oneOf"]
+                            b1["not"] = {"enum": [ex["values"][0]]}
+                            b0["enum"] = [ex["values"][0]]
+                    else:
+                        inline["properties"][ex["name"]]["example"] = ex["values"][0]
                     media["schema"] = inline
-                    refop.examples.append({"location": "body_property", "name": ex["name"], "value": ex["values"][0]})
+                    for val in ex["values"] if ex.get("branch") else ex["values"][:1]:
+                        refop.examples.append({"location": "body_property", "name": ex["name"], "value": val})
             pl = coll.get("path_level")
             if pl:
                 ppath = coll_path if pl["on"] == "coll" else item_path
@@ -518,6 +603,11 @@ class Universe:
             "paths": paths,
             "components": components,
         }
+        spec = desc.get("spec", "3.0")
+        if spec == "3.1":
+            self.doc["openapi"] = "3.1.0"
+        elif spec == "2.0":
+            self.doc = to_swagger2(self.doc)
 
     def _build_nested(self, coll: dict, paths: dict, id_schema: dict, err: dict) -> None:
         """/{name}/{id}/notes and /{name}/{id}/notes/{nid}: a nested resource that dies with its parent."""
@@ -603,9 +693,11 @@ class Universe:
             return text.encode()
 
         doc = self.doc
+        swagger = "swagger" in doc
+        ref_prefix = "#/definitions/" if swagger else "#/components/schemas/"
         if desc.get("yaml_quirks"):
             doc = copy.deepcopy(doc)
-            for name, sch in doc["components"]["schemas"].items():
+            for name, sch in (doc["definitions"] if swagger else doc["components"]["schemas"]).items():
                 if name.startswith("New"):
                     sch["properties"]["on"] = {"type": "boolean"}
                     sch["properties"]["since"] = {"type": "string", "example": "2020-01-01"}
@@ -614,18 +706,22 @@ class Universe:
                     sch["properties"]["2e3"] = {"type": "boolean"}
                     sch["properties"]["null"] = {"type": "boolean"}
                     sch["properties"]["~"] = {"type": "boolean"}
+        extern = {k: (v, "application/json") for k, v in self.external_files.items()}
         if desc.get("layout") != "multi":
-            return {f"/openapi.{ext}": (dump(doc), ctype)}
+            return {f"/openapi.{ext}": (dump(doc), ctype), **extern}
         # three files: root, paths, common. Path items behind $ref use schemas from the common file; inline path items
         # keep their local #/components references (resolved against the root document).
         root = copy.deepcopy(doc)
         flags = desc.get("ref_paths") or []
         paths_file: dict[str, Any] = {}
-        common = {"components": {"schemas": copy.deepcopy(doc["components"]["schemas"])}}
+        if swagger:
+            common = {"definitions": copy.deepcopy(doc["definitions"])}
+        else:
+            common = {"components": {"schemas": copy.deepcopy(doc["components"]["schemas"])}}
 
         def rewrite(node: Any) -> Any:
             if isinstance(node, dict):
-                return {k: (v.replace("#/components/schemas/", f"common.{ext}#/components/schemas/") if k == "$ref" and isinstance(v, str) else rewrite(v))
+                return {k: (v.replace(ref_prefix, f"common.{ext}{ref_prefix}") if k == "$ref" and isinstance(v, str) else rewrite(v))
                         for k, v in node.items()}
             if isinstance(node, list):
                 return [rewrite(x) for x in node]
@@ -642,6 +738,7 @@ class Universe:
             f"/openapi.{ext}": (dump(root), ctype),
             f"/paths.{ext}": (dump(paths_file), ctype),
             f"/common.{ext}": (dump(common), ctype),
+            **extern,
         }
 
     @property
@@ -668,6 +765,93 @@ class Universe:
         if f"{s[0]}XX" in keys or f"{s[0]}xx" in keys:
             return True
         return "default" in keys
+
+
+HTTP_METHODS = {"get", "put", "post", "delete", "options", "head", "patch", "trace"}
+
+
+def to_swagger2(doc: dict) -> dict:
+    """The same API written as a Swagger 2.0 document (body parameter, inline parameter types, x-example(s), x-links)."""
+
+    def conv(node: Any) -> Any:
+        if isinstance(node, dict):
+            return {k: (v.replace("#/components/schemas/", "#/definitions/") if k == "$ref" and isinstance(v, str) else conv(v))
+                    for k, v in node.items()}
+        if isinstance(node, list):
+            return [conv(x) for x in node]
+        return node
+
+    def conv_param(p: dict) -> dict:
+        q = {k: v for k, v in p.items() if k not in ("schema", "example", "examples")}
+        q.update(conv(p.get("schema") or {}))
+        if "example" in q:
+            q["x-example"] = q.pop("example")  # a plain `example` is not allowed on a 2.0 non-body parameter
+        if "example" in p:
+            q["x-example"] = p["example"]
+        if "examples" in p:
+            q["x-examples"] = copy.deepcopy(p["examples"])
+        return q
+
+    def conv_op(op: dict) -> dict:
+        new = {k: copy.deepcopy(v) for k, v in op.items() if k not in ("requestBody", "parameters", "responses")}
+        params = [conv_param(p) for p in op.get("parameters", [])]
+        rb = op.get("requestBody")
+        if rb:
+            media = rb["content"]["application/json"]
+            bp = {"in": "body", "name": "body", "required": bool(rb.get("required")), "schema": conv(media["schema"])}
+            if "example" in media:
+                bp["x-example"] = copy.deepcopy(media["example"])
+            if "examples" in media:
+                bp["x-examples"] = copy.deepcopy(media["examples"])
+            params.append(bp)
+        if params:
+            new["parameters"] = params
+        responses = {}
+        for code, r in op["responses"].items():
+            nr: dict[str, Any] = {"description": r.get("description", "")}
+            content = r.get("content")
+            if content:
+                nr["schema"] = conv(content["application/json"]["schema"])
+            if "headers" in r:
+                nr["headers"] = {h: conv(d.get("schema") or {"type": "string"}) for h, d in r["headers"].items()}
+            if "links" in r:
+                nr["x-links"] = copy.deepcopy(r["links"])
+            responses[code] = nr
+        new["responses"] = responses
+        return new
+
+    paths: dict[str, Any] = {}
+    for pth, item in doc["paths"].items():
+        new_item: dict[str, Any] = {}
+        for k, v in item.items():
+            if k == "parameters":
+                new_item[k] = [conv_param(p) for p in v]
+            elif k.lower() in HTTP_METHODS:
+                new_item[k] = conv_op(v)
+            else:
+                new_item[k] = copy.deepcopy(v)
+        paths[pth] = new_item
+    out: dict[str, Any] = {
+        "swagger": "2.0",
+        "info": copy.deepcopy(doc["info"]),
+        "host": BASE.split("://", 1)[1],
+        "basePath": API_PREFIX,
+        "schemes": [BASE.split("://", 1)[0]],
+        "consumes": ["application/json"],
+        "produces": ["application/json"],
+        "paths": paths,
+        "definitions": conv(doc["components"]["schemas"]),
+    }
+    schemes = doc["components"].get("securitySchemes")
+    if schemes:
+        sd = {}
+        for name, sch in schemes.items():
+            if sch.get("type") == "http" and sch.get("scheme") == "basic":
+                sd[name] = {"type": "basic"}
+            else:
+                sd[name] = copy.deepcopy(sch)
+        out["securityDefinitions"] = sd
+    return out
 
 
 def content_hash(*parts: Any) -> int:
